@@ -146,6 +146,33 @@ def run(ctx):
     proved_data_provenance(ctx, 'C06.r6')
     # reviewed reference of the checker functions' decision structure (engine/census.py)
     from rules import census_fns
+    # r7 (F65-F67): bookkeeping around an accepted batch
+    BFP = 'BlockFiltersProcess::execute'
+    census_fns.requires(ctx, 'C06.r7', BFP, r'^call Storage::update_block_number\(arg1\.filter\.storage, Add\(', r'Storage::get_earliest_matched_blocks\(.*\) is None',
+                        'a batch without a match raises the script numbers only if no matched-blocks record is pending in the store (not just in memory)',
+                        'restart (or fork, or a missing matched block) with record (31,2,[B31]) pending: an authentic unmatched batch [33,34] raises the script to 34; B31, proved and '
+                        'downloaded later, is skipped by filter_block')
+    Bb = ctx.body(BFP)
+    flag = [c for c in P.closures_of(Bb, transitive=False) if any(k.endswith('Byte32 as PartialEq>::eq') for _, k, _ in P.call_keys(c))
+            and any(st.kind == 'assign' and st.lhs.strip() == '_0' and re.match(r'^\(', (st.rhs or '').strip()) for blk in c.blocks.values() if not blk.cleanup for st in blk.stmts)]
+    bdu = DefUse(Bb)
+    tip_based = False
+    for c in flag:
+        tag = re.search(r'\[closure@([^\]]+)\]', c.sig_args).group(1)
+        for blk in Bb.blocks.values():
+            if blk.cleanup:
+                continue
+            for st in blk.stmts:
+                if st.kind == 'assign' and ('closure@' + tag) in (st.rhs or ''):
+                    org = {o[1] for a in re.findall(r'_\d+', st.rhs) for o in bdu.origins(a, stop_at_calls=False) if o[0] == 'call'}
+                    if any(x.endswith('Storage::get_tip_header') for x in org) and not any(x.endswith('ProveState::get_last_header') for x in org):
+                        tip_based = True
+    ctx.ob('C06.r7', BFP, 'a matched block is recorded as proved only if it is the stored tip (not the last header of the sender\'s prove state)', tip_based,
+           failing_history=None if tip_based else 'P1, P2 on branch A (tip A20), client tip B25 from Q; 2 of 3 peers agree on A\'s filter hashes: the authentic A filters mark A20 proved '
+           'without any proof and it is indexed')
+    census_fns.requires(ctx, 'C06.r7', 'SendBlocksProofProcess::execute_internally', r'^call Peers::mark_matched_blocks_proved', r'Storage::get_tip_header',
+                        'matched blocks are marked proved only by a blocks proof whose request was made for the current stored tip',
+                        'GetBlocksProof(last A15, [A14]) outstanding; fork to B; the held-back SendBlocksProof marks A14 proved after the kept record is recovered: A14 is downloaded and indexed')
     census_fns.run(ctx, 'C06')
 
 
